@@ -29,7 +29,7 @@ NPROC = os.cpu_count() or 16
 
 TIERS = {
     # explore: list of (first worker id, workers, runs per worker, concurrency bias %, restart-before-run %)
-    "quick": dict(explore=[(0, 10, 3000, 30, 75), (50, 1, 2000, 30, 10), (60, 1, 2000, 30, 1), (61, 1, 1200, 70, 0, 9000), (62, 1, 800, 70, 0, 70000), (100, 4, 1400, 90, 75)], seconds_cap=90, sweeps=1, hash_orders=8, determinism_runs=150, miri_seeds=0, max_minimise=3, fresh_sample=48, hot_keys=2, stress=(300, 5, 24), longrun=[(2, 200000, 0, "0/1"), (2, 100000, 0, "3/4")]),
+    "quick": dict(explore=[(0, 10, 3000, 30, 75), (50, 1, 2000, 30, 10), (60, 1, 2000, 30, 1), (61, 1, 1200, 70, 0, 9000), (62, 1, 800, 70, 0, 70000), (100, 4, 1400, 90, 75)], seconds_cap=90, sweeps=1, hash_orders=8, determinism_runs=150, miri_seeds=0, max_minimise=3, fresh_sample=48, hot_keys=2, stress=(300, 6, 24), longrun=[(2, 200000, 0, "0/1"), (2, 100000, 0, "3/4")]),
     "thorough": dict(explore=[(0, 10, 3000, 30, 75), (50, 1, 2000, 30, 10), (60, 1, 2000, 30, 1), (61, 1, 1200, 70, 0, 9000), (62, 1, 1200, 70, 0, 70000), (100, 4, 1400, 90, 75), (1000, 10, 40000, 30, 75), (1050, 1, 30000, 30, 10), (1060, 1, 30000, 30, 1), (1061, 1, 20000, 70, 0, 20000), (1062, 1, 20000, 70, 0, 140000), (1063, 1, 20000, 70, 0, 600000), (2000, 4, 12000, 90, 75)], seconds_cap=540, sweeps=8, hash_orders=64, determinism_runs=400, miri_seeds=16, max_minimise=6, fresh_sample=256, hot_keys=8, stress=(300, 8, 150), longrun=[(4, 1200000, 1, "0/1"), (2, 600000, 0, "3/4")]),
 }
 
